@@ -51,7 +51,7 @@ func VerifC12Matching() {
 		body := vrt_Bytes("cmdBody", 1)
 		vrtKSpecial("cmdsp", 0, vrtEscSpecial, body)
 		go func() {
-			res[i] = sm.write(NewActiveMessage(key, consts.JT808CommandType(cmds[i]), body, 2*time.Second))
+			res[i] = sm.write(NewActiveMessage(key, consts.JT808CommandType(cmds[i]), body, 1500*time.Millisecond))
 			done[i] = true
 		}()
 		vrt_Yield()
